@@ -34,6 +34,9 @@ type c16Case struct {
 	T         *tgen.TD `json:"type"`
 	GoType    string   `json:"go_type,omitempty"`
 	Overrides []string `json:"overrides,omitempty"` // pool type names overridden through TypeSchemas
+	// OverrideTDs: unnamed composite types (slices, arrays, maps, anonymous structs occurring in
+	// T) overridden through TypeSchemas as well
+	OverrideTDs []*tgen.TD `json:"override_types,omitempty"`
 	Ignore    bool     `json:"ignore_invalid_types"`
 	Feature   string   `json:"feature,omitempty"`
 }
@@ -45,6 +48,15 @@ func poolType(name string) reflect.Type {
 		}
 	}
 	return nil
+}
+
+func overrideName(t reflect.Type) string {
+	for _, p := range tgen.Pool {
+		if p.T == t {
+			return p.Name
+		}
+	}
+	return t.String()
 }
 
 func overrideSchema(name string, t reflect.Type) *jsonschema.Schema {
@@ -66,6 +78,15 @@ func (c *c16Case) options() (*jsonschema.ForOptions, map[reflect.Type]bool) {
 				o.TypeSchemas[t] = overrideSchema(n, t)
 				ov[t] = true
 			}
+		}
+	}
+	for _, td := range c.OverrideTDs {
+		if t, err := tgen.Build(td); err == nil && t.Name() == "" && t.Kind() != reflect.Pointer && t.Kind() != reflect.Interface {
+			if o.TypeSchemas == nil {
+				o.TypeSchemas = map[reflect.Type]*jsonschema.Schema{}
+			}
+			o.TypeSchemas[t] = overrideSchema(overrideName(t), t)
+			ov[t] = true
 		}
 	}
 	return o, ov
@@ -136,14 +157,8 @@ func agree(typ reflect.Type, raw json.RawMessage, s *jsonschema.Schema, ov map[r
 		}
 	}
 	if ov[typ] {
-		want := overrideSchema(typ.Name(), typ)
-		name := ""
-		for _, p := range tgen.Pool {
-			if p.T == typ {
-				name = p.Name
-			}
-		}
-		want = overrideSchema(name, typ)
+		name := overrideName(typ)
+		want := overrideSchema(name, typ)
 		if s.Title != want.Title && !(typ.Kind() == reflect.Struct && s.Properties["ovp-"+name] != nil && s.Properties["ovp-"+name].Title == "marker-"+name) {
 			return failf("%s: type %s is overridden through TypeSchemas but the schema here is not the override (title %q)", path, typ, s.Title)
 		}
@@ -201,12 +216,7 @@ func agree(typ reflect.Type, raw json.RawMessage, s *jsonschema.Schema, ov map[r
 		// an overridden type that occurs embedded contributes its override's properties instead of
 		// its fields: only presence of the marker property is checked at such a level
 		if et, found := embeddedOverride(typ, ov); found {
-			name := ""
-			for _, p := range tgen.Pool {
-				if p.T == et {
-					name = p.Name
-				}
-			}
+			name := overrideName(et)
 			if p := s.Properties["ovp-"+name]; p == nil || p.Title != "marker-"+name {
 				return failf("%s: embedded type %s is overridden through TypeSchemas but its override's properties are not merged into the struct's schema", path, et)
 			}
@@ -433,13 +443,7 @@ func checkC16(c *c16Case, rec *ev.Recorder) (fl *failure, harnessErr string) {
 		}
 		// TypeSchemas values must not have been modified
 		for t, s := range ts1 {
-			name := ""
-			for _, p := range tgen.Pool {
-				if p.T == t {
-					name = p.Name
-				}
-			}
-			if !reflect.DeepEqual(s, overrideSchema(name, t)) {
+			if !reflect.DeepEqual(s, overrideSchema(overrideName(t), t)) {
 				return failf("ForType(%s) modified the TypeSchemas entry for %s", c.GoType, t)
 			}
 		}
@@ -528,6 +532,18 @@ func TestC16(t *testing.T) {
 			}
 		}
 		ev.Journal("C16", c)
+		if rapid.IntRange(0, 5).Draw(t, "unnamed-override") == 0 {
+			var comps []*tgen.TD
+			c.T.Walk(func(x *tgen.TD) {
+				if x != c.T && (x.K == "slice" || x.K == "array" || x.K == "map" || x.K == "struct") {
+					comps = append(comps, x)
+				}
+			})
+			if len(comps) > 0 {
+				c.OverrideTDs = append(c.OverrideTDs, comps[rapid.IntRange(0, len(comps)-1).Draw(t, "unnamed")])
+				rec.Class("options:TypeSchemas-unnamed-type")
+			}
+		}
 		fl, herr := checkC16(c, rec)
 		if herr != "" || isHarnessFailure(fl) || (fl != nil && strings.Contains(fl.Msg, "HARNESS:")) {
 			if c.Feature == "" {
